@@ -112,5 +112,8 @@ class Backend(BaseBackend):
         self.output(u'\n\n\\end{thebibliography}\n')
 
     def write_entry(self, key, label, text):
+        if u']' in label:
+            # an optional argument ends at the first closing bracket outside braces
+            label = u'{%s}' % label
         self.output(u'\n\n\\bibitem[%s]{%s}\n' % (label, key))
         self.output(text)
